@@ -646,7 +646,10 @@ func mergeScrapeStatus(a, b map[uint64]*target.ScrapeStatus) map[uint64]*target.
 	for k, v := range b {
 		old := a[k]
 		if old == nil {
-			a[k] = v
+			// the merged view owns its entries: v belongs to a shard's status or to the explorer
+			cp := *v
+			cp.Shards = append([]string(nil), v.Shards...)
+			a[k] = &cp
 			continue
 		}
 
